@@ -1,7 +1,8 @@
 (** Correspondence check for C06, evaluated by [vm_compute] on the cases the Go harness
     wrote (what the real fabio code did, next to the inputs and the schedule). *)
 From Coq Require Import List NArith Bool Arith.
-From Fabio Require Import Lib.Outcome Lib.Bytes Lib.Verdict Model.Interleave Model.GlobCacheC06 Model.GlobCacheFine.
+From Fabio Require Import Lib.Outcome Lib.Bytes Lib.Verdict Model.Interleave Model.GlobCacheC06 Model.GlobCacheFine
+  Model.Access Model.AccessC06.
 Import ListNotations.
 
 Definition oeq (a b : outcome str) : bool :=
@@ -40,6 +41,13 @@ Fixpoint f_history (s : fshared) (calls : list (str * bool)) : fshared * list (o
                     let '(s2, os) := f_history s1 r in (s2, f_results ts ++ os)
   end.
 
+(* tables the harness filled by calling the real net.ParseIP / net.SplitHostPort *)
+Fixpoint tab_get {V} (t : list (str * V)) (k : str) : option V :=
+  match t with [] => None | (k', v) :: r => if beq k' k then Some v else tab_get r k end.
+Definition tab_fn {V} (t : list (str * option V)) (k : str) : option V :=
+  match tab_get t k with Some v => v | None => None end.
+Definition tab_has {V} (t : list (str * V)) (k : str) : bool := match tab_get t k with Some _ => true | None => false end.
+
 Inductive case :=
 (* forced schedule on the real HTTPProxy: thread i requests [paths_i] on a redirect route with
    template [tmpl]; [sched] is the replayed schedule in the model's actions (a whole Lookup =
@@ -61,6 +69,12 @@ Inductive case :=
 (* rr lookups through route.GetTable() while a writer installs many tables: what ONE table generation served
    ([n] picks attributed to it by target identity), its route's ring, its cursor when installed and at the end *)
 | CRRTable (ring : list nat) (c0 : N) (n : nat) (impl_counts : list nat) (impl_c : N)
+(* a history of requests against ONE target with access rules [r] (read back from the real target), run
+   sequentially in this order ([conc] = false) or all at once ([conc] = true) through the real ServeHTTP:
+   per request RemoteAddr, X-Forwarded-For field values; [ips] = net.ParseIP of every zone-stripped address
+   text that occurs, [splits] = net.SplitHostPort of every RemoteAddr; impl = denied (403) per request *)
+| CAccess (r : rules) (ips : list (str * option ipaddr)) (splits : list (str * option str))
+          (reqs : list (str * list str)) (conc : bool) (impl : list bool)
 (* [threads] goroutines x [per] lookups with the random picker on a route with [ntargets] targets whose
    ring is [ring]: picks per target, recovered panics, picks that are not a target of the route *)
 | CRndConc (ring : list nat) (threads per : nat) (impl_counts : list nat) (impl_panics impl_foreign : nat)
@@ -136,6 +150,25 @@ Definition check_case (c : case) : N :=
       let exact w := all2 (fun t cnt => Nat.eqb (count_nat t w) cnt) (seq 0 (length impl_counts)) impl_counts in
       let same := same0 && exact (want c0) in
       verdict same same None (Nat.ltb 1 n)
+  | CAccess r ips splits reqs conc impl =>
+      let pip := tab_fn ips in
+      let sh := tab_fn splits in
+      let qs := map (fun q => {| ac_remote := fst q; ac_xff := snd q |}) reqs in
+      (* the model run (serial order; by C06_access_every_schedule the order does not matter) *)
+      let '(_, ts) := run (ac_step pip sh) (seq 0 (length qs)) r (map ac_init qs) in
+      let same := all2 (fun l b => match ac_verdict l with Some v => Bool.eqb v b | None => false end) ts impl in
+      (* spec: the verdict of each request is the access function of that request alone *)
+      let spec := all2 (fun q b => Bool.eqb (ac_alone pip sh r q) b) qs impl in
+      (* every address text the model asks about is in the tables *)
+      let sane := forallb (fun q => tab_has splits (fst q)) reqs
+                  && forallb (fun q => match sh (fst q) with
+                                       | None => true
+                                       | Some host => tab_has ips (strip_zone host)
+                                                      && forallb (fun x => tab_has ips (strip_zone (trim_space x)))
+                                                                 (split_byte (join (snd q) [44%N]) 44%N)
+                                       end) reqs in
+      if negb sane then v_disagree else
+      verdict same spec None (negb (rules_empty r) && Nat.ltb 1 (length reqs))
   | CRndConc ring threads per impl_counts impl_panics impl_foreign =>
       (* C06_rnd_pick_member: no panic, every pick a member of the ring (a target with a positive weight) *)
       let same := Nat.eqb impl_panics 0 && Nat.eqb impl_foreign 0
